@@ -234,6 +234,119 @@ def client_retries(rep, fname):
                               asked_vs_frame=over)
 
 
+class _Clock(object):
+    """virtual time for pymodbus.client.sync (its module-level `time` is swapped for this during the probe)"""
+
+    def __init__(self):
+        self.now = 1000.0
+
+    def time(self):
+        return self.now
+
+    def sleep(self, d):
+        self.now += max(d, 0)
+
+
+class _BurstPort(object):
+    """a serial port on which the reply reaches the receive buffer in bursts: `in_waiting` is what has arrived by now,
+    read(n) blocks (virtually) until n bytes are there or the port timeout has passed"""
+
+    def __init__(self, clock, timeout=1.0):
+        self.clock, self.timeout = clock, timeout
+        self.arrivals = []        # (time, bytes), in time order
+        self.written = []
+        self.asked = []
+        self.timed_out = 0
+        self.is_open = True
+        self.plan = []            # bursts to schedule after the next write: [(delay, bytes)]
+
+    def _arrived(self):
+        return sum(len(b) for t, b in self.arrivals if t <= self.clock.now)
+
+    @property
+    def in_waiting(self):
+        return self._arrived()
+
+    def write(self, data):
+        self.written.append(bytes(data))
+        t0 = self.clock.now
+        self.arrivals = [(t0 + d, bytes(b)) for d, b in self.plan]
+        self.plan = []
+        return len(data)
+
+    def read(self, n=1):
+        self.asked.append(n)
+        if not n or n < 0:
+            return b''
+        deadline = self.clock.now + self.timeout
+        while self._arrived() < n:
+            later = [t for t, _ in self.arrivals if t > self.clock.now]
+            if not later or min(later) > deadline:
+                self.clock.now = deadline
+                self.timed_out += 1
+                break
+            self.clock.now = min(later)
+        buf = b''.join(b for t, b in self.arrivals if t <= self.clock.now)
+        rest = [(t, b) for t, b in self.arrivals if t > self.clock.now]
+        out, keep = buf[:n], buf[n:]
+        self.arrivals = ([(self.clock.now, keep)] if keep else []) + rest
+        return out
+
+    def close(self):
+        self.is_open = False
+
+    def unread(self):
+        return b''.join(b for _, b in self.arrivals)
+
+
+def real_serial_bursts(rep, fname):
+    """the REAL ModbusSerialClient (its own _send / _recv / _wait_for_data, not a stub) on a port where the reply comes in
+    one piece or in two bursts 0.2 s apart (USB adapters, ASCII gaps): it must read exactly the reply frame, leave nothing
+    unread, sit out no timeout, and return the decoded reply — for normal and exception replies"""
+    import pymodbus.client.sync as cs
+    from pymodbus.register_read_message import ReadHoldingRegistersResponse
+    from pymodbus.bit_read_message import ReadCoilsResponse
+    method = {'rtu': 'rtu', 'ascii': 'ascii', 'binary': 'binary'}[fname]
+    fcls = FRAMERS[fname]
+    cases = [({'t': 'readHolding', 'address': 0, 'count': 40}, lambda: ReadHoldingRegistersResponse(list(range(40)))),
+             ({'t': 'readHolding', 'address': 0, 'count': 2}, lambda: ReadHoldingRegistersResponse([7, 8])),
+             ({'t': 'readCoils', 'address': 0, 'count': 19}, lambda: ReadCoilsResponse([True] * 19 + [False] * 5)),
+             ({'t': 'readHolding', 'address': 0, 'count': 40}, lambda: ExceptionResponse(3, 2))]
+    saved = cs.time
+    try:
+        for m, mk in cases:
+            for split in ('whole', 'after-head', 'middle', 'before-checksum'):
+                clock = _Clock()
+                cs.time = clock
+                client = cs.ModbusSerialClient(method=method, port='/dev/null', timeout=1)
+                port = _BurstPort(clock)
+                client.socket = port
+                reply = mk()
+                reply.unit_id, reply.transaction_id = 1, 1
+                frame = bytes(StubClient(fcls).framer.buildPacket(reply))
+                k = {'whole': len(frame), 'after-head': min(len(frame) - 1, client.transaction._set_adu_size() or 4) if False else 4,
+                     'middle': len(frame) // 2, 'before-checksum': len(frame) - 2}[split]
+                k = max(1, min(k, len(frame)))
+                port.plan = [(0.0, frame[:k])] + ([(0.2, frame[k:])] if k < len(frame) else [])
+                req = msggen.mk_req(m)
+                req.unit_id = 1
+                try:
+                    got = client.execute(req)
+                    gj = {'error_object': str(got)[:60]} if isinstance(got, Exception) else pdus.resp_to_json(got)
+                except Exception as e:  # noqa
+                    gj = {'raised': errkind(e)}
+                expect = pdus.resp_to_json(ClientDecoder().decode(bytes([reply.function_code]) + reply.encode()))
+                case = {'kind': 'real-serial-bursts', 'framer': fname, 'request': m, 'reply': type(reply).__name__, 'split': split}
+                rep.case(('bursts', fname, str(m), type(reply).__name__, split), nontrivial=True, tag='real-serial-bursts:' + fname)
+                reads = [a for a in port.asked if a]
+                if gj != expect or port.unread() or port.timed_out or sum(reads) != len(frame):
+                    rep.violation('the real serial client did not read exactly the reply frame that reached the port in bursts', case,
+                                  asked=port.asked, frame_len=len(frame), left_unread=len(port.unread()), timeouts=port.timed_out,
+                                  got=gj, expected=expect)
+    finally:
+        cs.time = saved
+
+
 def client_echo(rep, fname):
     """serial clients with handle_local_echo: the echo of the request is read first, then the reply — an exception reply
     must still be read with ITS length"""
@@ -347,6 +460,7 @@ def run(ctx):
         if fname in ('rtu', 'ascii', 'binary'):
             client_echo(rep, fname)
             client_retries(rep, fname)
+            real_serial_bursts(rep, fname)
     # exception replies through every framing
     for fname in framer_names:
         for m in (reqs[0], reqs[4000], {'t': 'writeRegister', 'address': 1, 'value': 2}, dreqs[0]):
